@@ -17,4 +17,4 @@ Anchored in: {', '.join(p['anchors']['files'])}. Mechanisms meant to make it hol
 
 Produce {n} different, independent changes to the project's NON-TEST source (Go runtime, generated Go of the systems, or both), each of which BREAKS this property while the project still compiles and its existing tests still pass ({tests or 'run the Go tests of every module you touch and of the modules that depend on the code you touch; `cd distsys && go test -count=1 ./...` always'}). Each change must need something SPECIFIC to manifest — a particular interleaving, a crash or fault at a particular point, a multi-step sequence of operations, an unusual input, or two cooperating sites that each look fine alone — not something ordinary use exposes at once. Make them look like plausible developer mistakes, refactorings or "optimisations", not sabotage, and make them different in kind from each other (touch different mechanisms of the property).
 
-For each change i create {out}/<i>/ containing: `patch.diff` (`git diff` of that change alone, relative to the worktree root, applying cleanly with `git apply` on a clean checkout of the worktree's HEAD), a demonstration `demo_test.go` (a Go test that FAILS with the change applied and PASSES without it; header comment: where to place it, how to run it; if the failure is probabilistic make it fail with high probability by repetition), and `meta.json` with keys "property": "{pid}", "breaks" (one sentence: which part of the property fails), "needs" (what specific circumstance is needed to manifest), "ran" (commands you ran and outcomes: existing tests pass with the patch; demo fails with / passes without). Reset the worktree (`git checkout -- . && git clean -fd`) between changes and at the end. Verify each change fully before reporting; drop a change you cannot demonstrate. Final message: one line per change.""")
+For each change i create {out}/<i>/ containing: `patch.diff` (`git diff` of that change alone, relative to the worktree root, applying cleanly with `git apply` on a clean checkout of the worktree's HEAD), a demonstration `demo_test.go` (a Go test that FAILS with the change applied and PASSES without it; header comment: where to place it, how to run it; if the failure is probabilistic make it fail with high probability by repetition), and `meta.json` with keys "property": "{pid}", "breaks" (one sentence: which part of the property fails), "needs" (what specific circumstance is needed to manifest), "ran" (commands you ran and outcomes: existing tests pass with the patch; demo fails with / passes without). Reset the worktree (`git checkout -- . && git clean -fd`) between changes and at the end. NEVER use `git stash` (the stash is shared with other people's worktrees of the same repository): save work with `git diff > file`, restore with `git apply`. Verify each change fully before reporting; drop a change you cannot demonstrate. Final message: one line per change.""")
